@@ -306,6 +306,8 @@ def enum_local_path():
     for n in ([0], [1, S('bad'), 8], [1, S('10.0.0.0'), 33], [2, [], S('10.0.0.0'), 8], [2, [100], S('10.0.0.0'), 8], [3, [100], [1, 1, 1], S('2001:db8::'), 64], [1, S('2001:db8::'), 128]):
         for fam in (-1, (2 << 16) | 1, (1 << 16) | 128): out.append(lp('lp:nlri_forms', fam, n, [[6, 100]]))
     for ident in (0, 1, U32MAX): out.append(lp('lp:identifier', -1, pfx, [], ident))
+    for fam in ((65535 << 16) | 255, (65536 << 16) | 1, (65537 << 16) | 1, (1 << 16) | 256, (1 << 16) | 257, (1 << 16) | 65535, 0):
+        out.append(lp('lp:family_edge', fam, pfx, [[6, 100]]))
     # a path that must tie / win / lose each comparator step against the competitor [ORIGIN igp, empty AS_PATH]
     for attrs in ([[6, 100]], [[6, 101]], [[6, 99]], [[3, [[2, [1]]]]], [[3, [[1, [1, 2, 3]]]]], [[3, [[3, [1, 2]]]]], [[2, 1]], [[2, 2]],
                   [[9, [0xffff0006]]], [[9, [1, 0xffff0006]]], [[9, [0xffff0007]]], [[5, 0]], [[5, U32MAX]]):
